@@ -209,8 +209,8 @@ def exact_lengths(raw):
     try:
         taco.validate(dims, modes, ordering, indices, vals, lengths_exact=True, uninit=irvm.UNINIT, vals_slack=None)
         return True
-    except taco.Malformed:
-        return False
+    except taco.Malformed as m:
+        return not m.rule.endswith("-length")
 
 
 # --------------------------------------------------------------------------- JIT executor
